@@ -368,6 +368,30 @@ def interned_construction(rep: Report, prog: Program, resolver: Resolver, summ: 
                       "silently keeps name None", fi.where(node))
 
 
+def lookup_by_name(rep: Report, prog: Program) -> None:
+    """R19.10: `named(name)` answers from the name registry with the given name and from nothing else.  Names and
+    symbols are separate namespaces: routing the lookup through symbol resolution returns another unit whenever a
+    declared name reads like a (prefixed) symbol."""
+    for cls in ("Unit", "Dimension"):
+        ci = prog.cls(cls)
+        if "named" not in ci.methods:
+            continue
+        fi = prog.functions[ci.methods["named"]]
+        nm = fi.params()[1] if len(fi.params()) > 1 else "name"
+        defs = {n.targets[0].id: n.value for n in ast.walk(fi.node) if isinstance(n, ast.Assign) and len(n.targets) == 1 and isinstance(n.targets[0], ast.Name)}
+        rets = [r for r in ast.walk(fi.node) if isinstance(r, ast.Return) and r.value is not None]
+        ok = bool(rets)
+        bad = ""
+        for r in rets:
+            v = defs.get(r.value.id, r.value) if isinstance(r.value, ast.Name) else r.value
+            t = ast.unparse(v).replace(" ", "")
+            good = (t.endswith(f"._by_name[{nm}]") or t.endswith(f"._by_name.get({nm})") or f"._by_name.get({nm}," in t) and nm not in defs
+            if not good and not (isinstance(v, ast.Constant) and v.value is None):
+                ok, bad = False, ast.unparse(v)[:50]
+        rep.check("R19.10", f"{cls}.named", ok, f"{cls}.named returns `{bad}` instead of the entry of the name registry for `{nm}`: a declared name that is also "
+                  "a symbol spelling (ft, pt, min) resolves to a different object than the one it was declared for", fi.where())
+
+
 def memo_over_registries(rep: Report, prog: Program, resolver: Resolver, rid: str) -> None:
     """No memoised function (transitively, context-pruned) reads a name/symbol registry: its answers
     would survive a later declaration."""
@@ -404,6 +428,7 @@ def run(rep: Report) -> None:
     rep.rule("R19.4", "anonymous before named: no shipped declaration names a key that was already constructed anonymously "
              "(under every entry module), unless the constructor handles late naming", floor=25)
     rep.rule("R19.5", "uniqueness in shipped tables: no name or symbol is declared for two objects", floor=300)
+    rep.rule("R19.10", "named(name) is the name registry's entry for that name", floor=2)
     rep.rule("R19.9", "no shipped dimension is declared under two names (a second Dimension.derive of an equal dimension renames the first)", floor=1)
     rep.rule("R19.6", "no memoised function reads the name/symbol registries without being invalidated by their writers", floor=1)
 
@@ -478,6 +503,7 @@ def run(rep: Report) -> None:
                  f"(structurally equal dimensions are one interned object): Dimension.named({old!r}) still finds it but it now reports {new!r}", where)
     if not ev.dim_renames:
         rep.ok("R19.9", "shipped-dimensions", note=f"{len(ev.dim_by_name)} named dimensions, none declared under two names")
+    lookup_by_name(rep, prog)
     # R19.6 memo over registries (shared with C08)
     memo_over_registries(rep, prog, resolver, "R19.6")
     rep.analysed.update({"entry_points": ENTRIES, "declared_prefixes": len(ev.prefix_decls), "unit_name_symbol_declarations": len(ev.name_decls),
